@@ -212,8 +212,9 @@ class RealSession:
         for i in new:
             if self.tokobj[i].token_class == "authorization_code":
                 self.code_req[i] = {"client": client, "scope": list(scope), "redirect_uri": req["redirect_uri"]}
-                if self.last_cookie:
-                    self.grant_cookie[self.tok_grant[i]] = self.last_cookie
+            # (an implicit response carries no code: the cookie belongs to the grant of whatever the response carries)
+            if self.last_cookie and (self.tokobj[i].token_class == "authorization_code" or rtype != "code"):
+                self.grant_cookie[self.tok_grant[i]] = self.last_cookie
         if isinstance(res, dict) and "http_response" in res and "response_args" not in res:
             return ["login"]      # the provider wants the user to authenticate (again); nothing was issued
         ra = res.get("response_args") if isinstance(res, dict) else res
@@ -221,6 +222,18 @@ class RealSession:
         if e:
             return ["err", e, new]
         return ["ok", new, sorted(ra.get("scope", [])) if ra is not None and "scope" in ra else None]
+
+    def op_authzr(self, user, client, scope, rtype):
+        """An authorization request with any response type (implicit / hybrid: the authorization endpoint itself mints the
+        access token and / or the ID Token, besides or instead of a code).  The outcome names what the response carries by
+        slot: ["ok", new, scope, {"code": i, "access_token": i, "id_token": i}]"""
+        out = self.op_authz(user, client, scope, rtype=rtype)
+        if out[0] != "ok":
+            return out
+        slots = {}
+        for i in out[1] or []:
+            slots[{"authorization_code": "code"}.get(self.tokobj[i].token_class, self.tokobj[i].token_class)] = i
+        return out + [slots]
 
     def op_authzc(self, prev, user, client, scope, redirect, fresh):
         """An authorization request from a browser that presents the session cookie the provider set when it answered the
@@ -474,6 +487,10 @@ def coq_op(rs, op):
         return "(Authorize %s %s %s)" % (coq_str(op[1]), coq_str(op[2]), coq_strs(op[3]))
     if k == "authzc":
         return "(AuthorizeCookie %s %s %s %s %s %s)" % (coq_nat(op[1]), coq_str(op[2]), coq_str(op[3]), coq_strs(op[4]), coq_str(op[5]), coq_bool(op[6]))
+    if k == "authzr":
+        rt = op[4].split(" ")
+        return "(AuthorizeRT %s %s %s %s %s %s)" % (coq_str(op[1]), coq_str(op[2]), coq_strs(op[3]), coq_bool("code" in rt),
+                                                    coq_bool("token" in rt), coq_bool("id_token" in rt))
     if k == "tparse":
         uri = rs.redirect_for(op[1], op[2], op[3] if len(op) > 3 else "same")
         r = "None" if uri is None else "(Some %s)" % coq_str(uri)
@@ -520,6 +537,10 @@ def coq_out(op, out):
     if k == "active":
         cls = {"access_token": "Access", "refresh_token": "Refresh"}.get(out[4], "Code")
         return "(OActive %s %s %s)" % (coq_strs(out[1]), coq_str(out[2] or ""), cls)
+    if op[0] == "authzr":
+        d = out[3]
+        f = lambda key: "(Some %s)" % coq_nat(d[key]) if key in d else "None"
+        return "(OAuthzRT %s %s %s %s)" % (f("code"), f("access_token"), f("id_token"), coq_strs(sorted(out[2] or [])))
     if op[0] in ("authz", "authzc"):
         return "(OAuthz %s %s)" % (coq_nat(out[1][0]) if out[1] else "0%nat", coq_strs(sorted(out[2] or [])))
     if op[0] == "proc":
@@ -649,11 +670,16 @@ def gen_cookie_prefix(rng):
     return plan
 
 
-def gen_history(rng, n, focus="mixed", p_cookie=0.0):
+RT_OIDC = ["token", "id_token token", "code token", "code id_token token", "code id_token", "id_token", "code"]
+RT_OAUTH2 = ["token", "code token", "token", "code token", "code"]
+
+
+def gen_history(rng, n, focus="mixed", p_cookie=0.0, p_front=0.0):
     """Generate a plan of abstract ops; token / grant / parsed indices are chosen relative to what exists
     when the op runs (resolved by `materialise`).  focus "multi": the history starts with gen_multi_prefix; focus
     "cookie": it starts with gen_cookie_prefix.  p_cookie: the share of the authorization requests of the random part that
-    come with a session cookie."""
+    come with a session cookie.  p_front: the share of the (cookie-less) authorization requests of the random part that use
+    an implicit / hybrid response type (the authorization endpoint itself mints an access token and / or an ID Token)."""
     plan = gen_multi_prefix(rng) if focus == "multi" else gen_cookie_prefix(rng) if focus == "cookie" else []
     for i in range(len(plan), max(n, len(plan) + 8) if plan else n):
         r = rng.random()
@@ -668,7 +694,10 @@ def gen_history(rng, n, focus="mixed", p_cookie=0.0):
                 sc.insert(0, "openid")
             if rng.random() < 0.5 and "offline_access" not in sc:
                 sc.append("offline_access")
-            plan.append(("authz", rng.choice(USERS), rng.choice(CLIENTS), sc))
+            if p_front and rng.random() < p_front:
+                plan.append(("authzr", rng.choice(USERS), rng.choice(CLIENTS), sc, rng.random()))
+            else:
+                plan.append(("authz", rng.choice(USERS), rng.choice(CLIENTS), sc))
         elif r < 0.33:
             plan.append(("tparse", rng.random(), rng.random(), rng.random()))
         elif r < 0.50:
@@ -772,15 +801,22 @@ def materialise_authzc(rs, p):
     own = g.authorization_request.get("redirect_uri") if prev < len(rs.grants) else registered_redirects(client)[0]
     uris = registered_redirects(client)
     redirect = own if (client == gc and xr < 0.5) else uris[1] if (own == uris[0] or client != gc and xr < 0.75) else uris[0]
+    # a grant made for an implicit / hybrid request: a cookie-carrying request (response_type=code) differs from the stored
+    # one by its response type whatever else it says, so it never re-sends that grant's nonce (the model's "same request"
+    # compares scope, redirect_uri and nonce)
+    front = prev < len(rs.grants) and list(g.authorization_request.get("response_type", ["code"])) != ["code"]
     if xs < 0.12 and client == gc and prev < len(rs.grants):
-        return ("authzc", prev, user, client, sc, own, False)      # the identical request once more
-    return ("authzc", prev, user, client, sc, redirect, xf < 0.5)
+        return ("authzc", prev, user, client, sc, own, front)      # the identical request once more
+    return ("authzc", prev, user, client, sc, redirect, front or xf < 0.5)
 
 
 def materialise(rs, p):
     k = p[0]
     if k == "authzc":
         return materialise_authzc(rs, p)
+    if k == "authzr":
+        types = RT_OIDC if rs.oidc else RT_OAUTH2
+        return ("authzr", p[1], p[2], _fit_scope(rs, p[2], p[3]), types[min(int(p[4] * len(types)), len(types) - 1)])
     if k == "tparse_code":
         # the slot-th code (by position among all codes ever issued), presented by its own client with redirect variant p[2]
         codes = [i for i, t in enumerate(rs.tokobj) if t.token_class == "authorization_code"]
